@@ -358,6 +358,9 @@ int pthread_mutex_unlock(pthread_mutex_t *m) {
 }
 static int model_wait(pthread_cond_t *c, pthread_mutex_t *m) {
   int me = cur;
+  /* scheduling point while the mutex is still held: another thread that touches the predicate WITHOUT the
+     mutex (and notifies) can run between the waiter's predicate test and its parking - the lost wake-up window */
+  point(OP_POINT, c, vs_group_of ? vs_group_of(OP_LOCK, m) : -1);
   int i = mu_index(m);
   MU[i].owner = -1;
   memcpy(MU[i].vc, VC[me], sizeof MU[i].vc);
